@@ -947,6 +947,18 @@ func (c *Ctx) indexNeed(body ast.Node, pm map[ast.Node]ast.Node, at ast.Node, v 
 			return k, fmt.Sprintf("len(%s)-%d", v.Name(), k), true
 		}
 	}
+	// the count a Read into the whole of v returned: 0 <= n <= len(v) is the io.Reader contract
+	if id, ok := ix.(*ast.Ident); ok && isSlice {
+		if def, k := c.singleDef(body, c.objOf(id)); k == 1 && def != nil {
+			if call, isCall := stripParens(def).(*ast.CallExpr); isCall && len(call.Args) == 1 && c.isObj(call.Args[0], v) {
+				if sel, isSel := call.Fun.(*ast.SelectorExpr); isSel && sel.Sel.Name == "Read" && !c.assignedIn(body, v) {
+					if sig, isSig := c.typeOf(call.Fun).(*types.Signature); isSig && sig.Results().Len() == 2 && isInt(sig.Results().At(0).Type()) {
+						return 0, "the count returned by Read(" + v.Name() + ") (at most len(" + v.Name() + ") by the io.Reader contract)", true
+					}
+				}
+			}
+		}
+	}
 	// induction variable of an enclosing loop over v
 	if id, ok := ix.(*ast.Ident); ok {
 		iv := c.objOf(id)
